@@ -106,14 +106,22 @@ Definition HTTP_11 : N := 11.      (* http::Response::new leaves the default ver
 
 (* http::HeaderMap holds at most 24576 distinct names (MAX_SIZE = 32768 slots at a load factor
    of 3/4); HeaderMap::extend / insert beyond that panic ("size overflows MAX_SIZE").  Repeated
-   values of one name live in a side table and are not limited.  Status::add_header only ever
-   adds names, so it panics iff the finished map would hold more names than that. *)
+   values of one name live in a side table and are not limited.  Status::add_header adds names
+   (extend, insert) and only at its very end - for a status WITHOUT details, fix ed827503 of
+   finding F-C04e - removes one, grpc-status-details-bin; a removal cannot panic.  So it panics
+   iff the map as it was BEFORE that removal would hold more names than that: the names of the
+   finished map plus the one removed, if the custom metadata had an entry of that name. *)
 Definition HEADER_MAP_MAX_NAMES : N := 24576.
 Definition names_count (m : hm) : N := N.of_nat (length (sorted_keys m)).
+Definition removed_names (st : status) : N :=
+  match st_details st with
+  | [] => if hm_contains (st_md st) hdr_grpc_status_details then 1 else 0
+  | _ => 0
+  end.
 (* Status::into_http::<()>(): Response::new, insert content-type, add_header(..).unwrap() *)
 Definition status_into_http (st : status) : res hm :=
   match status_into_http_headers st with
-  | Val h => if HEADER_MAP_MAX_NAMES <? names_count h then Panic else Val h
+  | Val h => if HEADER_MAP_MAX_NAMES <? names_count h + removed_names st then Panic else Val h
   | Panic => Panic
   end.
 
